@@ -99,9 +99,13 @@ def materialise(entry, srcdir, idx):
     raise ValueError(how)
 
 
-def run_session(z, sess, srcdir, base_idx=0):
+RECORD = []  # (filters, [stream contents in order]) of every session run since the list was last cleared (KF-47 tagging)
+
+
+def run_session(z, sess, srcdir, base_idx=0, filters=None):
     """apply one session's entries to an open SevenZipFile; returns the model members added"""
     added = []
+    RECORD.append((filters or sess.get("filters") or (sess.get("chain") or {}).get("filters"), added))
     for i, e in enumerate(sess["entries"]):
         how = e["how"]
         if how == "writestr":
